@@ -7,8 +7,10 @@ from common import CBuild
 PID = "C08"
 TRUSTED = ["sanitizer build (clang -fsanitize=address,bounds,null) turns a memory error into an abort/trap",
            "tool runs use setpriv to uid 65534 in a scratch directory"]
-ASSUMPTIONS = ["theorems cover the header parser, input stream and basic reader (P_HeaderSafe) and the decompressors (C09); "
-               "lha_reader, extraction and the command-line layer are covered by the sanitizer oracle and correspondence only"]
+ASSUMPTIONS = ["theorems: no Fault site of the model is reachable for any bytes / history -- header parser, input stream, basic reader, "
+               "reader layer (reader_history_never_faults), all decoders (C09) and the tool model (lha_main_never_faults, cli_run_never_faults); "
+               "a Fault site stands for an out-of-bounds index or a missing-object access of the C at the same place; whether the C "
+               "has accesses the model has no site for is what the sanitizer build decides on this run's inputs"]
 MODES = [["l"], ["v"], ["lv"], ["vv"], ["t"], ["p"], ["xn"], ["x"], ["xq2f"], ["e"]]
 # option/argument forms that reach code the plain modes do not: an extraction directory (w=), member patterns after the
 # archive name (src/filter.c).  What follows "--" goes after the archive name.
